@@ -48,6 +48,18 @@ theorem trapz_add (l : List (α × α × α)) :
       simp only [List.map_cons, trapz] at ih ⊢
       rw [ih]; ring
 
+theorem trapz_lin2 (a b : α) (l : List (α × α × α)) :
+    trapz (l.map fun q => (q.1, a * q.2.1 + b * q.2.2)) =
+      a * trapz (l.map fun q => (q.1, q.2.1)) + b * trapz (l.map fun q => (q.1, q.2.2)) := by
+  induction l with
+  | nil => simp [trapz]
+  | cons x l ih =>
+    cases l with
+    | nil => simp [trapz]
+    | cons y r =>
+      simp only [List.map_cons, trapz] at ih ⊢
+      rw [ih]; ring
+
 /-! ### The trapezoidal rule as a sum over non-negative "atoms"
 
 Each pair of adjacent nodes contributes two atoms `(Δ/2 · e, f)`: a moment is
